@@ -72,7 +72,7 @@ class Ledger:
                     return 'skipped-copy'
                 if cur_op == 'start':
                     started[tag] = True
-                    everstarted[tag] = True
+                    everstarted[tag] = 'again' if everstarted.get(tag) else True
                     inst.setdefault(tag, {})
                     # a (re)started machine begins in its initial states: the entries that start() performs
                     # before anything else are the machine's own and those of its initial states, in order
@@ -96,7 +96,10 @@ class Ledger:
                             break           # the root's own rows run only after all its initial states are entered
                         # records of nested machines (their entries and their completion transitions, C10) interleave
                         j += 1
-                    if not aborted and got != exp:
+                    # '... a machine without history can be started again from its initial states': a root with a
+                    # history policy is outside that clause (back restarts in the initial states, backmp11 restores);
+                    # entry/exit alternation and introspection agreement are judged for it all the same
+                    if not aborted and got != exp and not (root.get('history') and everstarted.get(tag) == 'again'):
                         self.rej({'C03'}, 'start-not-initial', exp, 'entered by start(): %s' % got, pos)
                     self.cov['C03'].add(('start', tuple(exp)))
                 continue
